@@ -162,7 +162,7 @@ func c11Open(acctLookback uint64, mem bool) (*c11Drv, error) {
 	cfg.LedgerSynchronousMode = 0 // no fsync: only process-level restarts are modelled, never power loss
 	cfg.AccountsRebuildSynchronousMode = 0
 	cfg.DisableLedgerLRUCache = true // the LRU write-buffers (100k-entry channels) cost ~1s per open; txTail does not use them
-	cfg.TxPoolSize = 16 // only sizes the verified-signature cache here (signatures are mocked)
+	cfg.TxPoolSize = 16              // only sizes the verified-signature cache here (signatures are mocked)
 	cfg.VerifiedTranscationsCacheSize = 16
 	d.cfg = cfg
 	if err := d.open(); err != nil {
@@ -227,22 +227,30 @@ func (d *c11Drv) startEval() (*eval.BlockEvaluator, error) {
 	return eval.StartEvaluator(d.l, next, eval.EvaluatorOptions{Generate: true, Validate: true})
 }
 
-// endBlock finishes the evaluator's block, validates it through Ledger.Validate (signature
-// checks mocked: the transactions are unsigned) and adds it.
-func (d *c11Drv) endBlock(ev *eval.BlockEvaluator) (ledgercore.StateDelta, error) {
+// endBlock finishes the evaluator's block and adds it. validate=true re-evaluates it through
+// Ledger.Validate (signature checks mocked: the transactions are unsigned) like a block
+// received from the network; validate=false adds the proposer's own evaluation result (the
+// header is not changed by FinishBlock: zero seed, no proposer since payouts are disabled).
+func (d *c11Drv) endBlock(ev *eval.BlockEvaluator, validate bool) (ledgercore.StateDelta, error) {
 	ub, err := ev.GenerateBlock(nil)
 	if err != nil {
 		return ledgercore.StateDelta{}, fmt.Errorf("GenerateBlock: %w", err)
 	}
 	blk := ub.FinishBlock(committee.Seed{}, basics.Address{}, false)
-	save := d.l.verifiedTxnCache
-	d.l.verifiedTxnCache = verify.GetMockedCache(true)
-	vb, err := d.l.Validate(context.Background(), blk, nil)
-	d.l.verifiedTxnCache = save
-	if err != nil {
-		return ledgercore.StateDelta{}, fmt.Errorf("Validate: %w", err)
+	var vb ledgercore.ValidatedBlock
+	if validate {
+		save := d.l.verifiedTxnCache
+		d.l.verifiedTxnCache = verify.GetMockedCache(true)
+		pvb, err := d.l.Validate(context.Background(), blk, nil)
+		d.l.verifiedTxnCache = save
+		if err != nil {
+			return ledgercore.StateDelta{}, fmt.Errorf("Validate: %w", err)
+		}
+		vb = *pvb
+	} else {
+		vb = ledgercore.MakeValidatedBlock(blk, ub.UnfinishedDeltas())
 	}
-	if err := d.l.AddValidatedBlock(*vb, agreement.Certificate{}); err != nil {
+	if err := d.l.AddValidatedBlock(vb, agreement.Certificate{}); err != nil {
 		return ledgercore.StateDelta{}, fmt.Errorf("AddValidatedBlock: %w", err)
 	}
 	if err := d.drainBlockQueue(); err != nil {
